@@ -647,6 +647,12 @@ class Parser:
         **locs: int,
     ) -> ast.FormattedValue:
         """A replacement field; with the `=` specifier the source text of the expression becomes a literal part."""
+        if isinstance(value, ast.Lambda):
+            # a colon at the level of the field starts the format spec, so a lambda must be parenthesised; its node
+            # starts right after the field's brace only when it is not
+            between = self._tokenizer._source_text((locs["lineno"], locs["col_offset"] + 1), (value.lineno, value.col_offset))
+            if between is not None and not between.strip():
+                self.raise_syntax_error_known_location("f-string: lambda expressions are not allowed without parentheses", value)
         if conversion is None:
             conversion = b"r"[0] if debug and format_spec is None else -1
         node = ast.FormattedValue(value=value, conversion=conversion, format_spec=format_spec, **locs)
